@@ -176,11 +176,30 @@ func fmtArgs(t *tb, r *Result, args []ssa.Value, from int, depth int) string {
 // Writes performed by in-package helpers that receive the buffer are inlined at the call position (bounded depth), with the
 // helper specialised on its constant arguments and its parameters replaced by the argument terms.
 func bufferWrites(t *tb, r *Result, buf ssa.Value, depth int) string {
+	origin, items := bufferWriteList(t, r, buf, depth)
+	var out []string
+	for _, it := range items {
+		out = append(out, it.Txt)
+	}
+	return origin + ": " + strings.Join(out, "; ")
+}
+
+// bwItem is one write into a buffer: Kind byte|str|write|printf|call, Txt its canonical rendering; printf items carry
+// their format (with constant star widths folded in) and argument terms.
+type bwItem struct {
+	Kind   string
+	Txt    string
+	Format string
+	Args   []string
+	In     *ssa.Call
+}
+
+func bufferWriteList(t *tb, r *Result, buf ssa.Value, depth int) (string, []bwItem) {
 	buf = strip(buf)
 	var origin string
 	type site struct {
-		pos token.Pos
-		txt string
+		pos   token.Pos
+		items []bwItem
 	}
 	var sites []site
 	seenCall := map[ssa.Instruction]bool{}
@@ -197,13 +216,24 @@ func bufferWrites(t *tb, r *Result, buf ssa.Value, depth int) string {
 		}
 		switch f.String() {
 		case "(*bytes.Buffer).WriteByte":
-			sites = append(sites, site{c.Pos(), "byte(" + numTerm(t, cc.Args[1]) + ")"})
+			sites = append(sites, site{c.Pos(), []bwItem{{Kind: "byte", Txt: "byte(" + numTerm(t, cc.Args[1]) + ")", Args: []string{numTerm(t, cc.Args[1])}, In: c}}})
 		case "(*bytes.Buffer).WriteString":
-			sites = append(sites, site{c.Pos(), "str(" + valTerm(t, r, cc.Args[1], depth+1) + ")"})
+			sites = append(sites, site{c.Pos(), []bwItem{{Kind: "str", Txt: "str(" + valTerm(t, r, cc.Args[1], depth+1) + ")", Args: []string{valTerm(t, r, cc.Args[1], depth+1)}, In: c}}})
 		case "(*bytes.Buffer).Write":
-			sites = append(sites, site{c.Pos(), "write(" + valTerm(t, r, cc.Args[1], depth+1) + ")"})
+			sites = append(sites, site{c.Pos(), []bwItem{{Kind: "write", Txt: "write(" + valTerm(t, r, cc.Args[1], depth+1) + ")", Args: []string{valTerm(t, r, cc.Args[1], depth+1)}, In: c}}})
 		case "fmt.Fprintf":
-			sites = append(sites, site{c.Pos(), "printf(" + fmtArgs(t, r, cc.Args, 1, depth) + ")"})
+			fa := fmtArgList(t, r, cc.Args, 1, depth)
+			format, _ := constString(cc.Args[1])
+			args := fa[1:]
+			if strings.Contains(format, "*") && len(args) > 0 {
+				var k int64
+				if _, err := fmt.Sscanf(args[0], "%d", &k); err == nil && fmt.Sprint(k) == args[0] {
+					format = strings.Replace(format, "*", args[0], 1)
+					args = args[1:]
+				}
+			}
+			txt := "printf(" + strings.Join(append([]string{fmt.Sprintf("%q", format)}, args...), ",") + ")"
+			sites = append(sites, site{c.Pos(), []bwItem{{Kind: "printf", Txt: txt, Format: format, Args: args, In: c}}})
 		case "(*bytes.Buffer).Bytes", "(*bytes.Buffer).Len", "(*bytes.Buffer).String":
 		default:
 			// in-package helper receiving the buffer: inline its writes
@@ -243,15 +273,14 @@ func bufferWrites(t *tb, r *Result, buf ssa.Value, depth int) string {
 					}
 					sub := specializeAt(f, bind, t.tables, depth+1)
 					child.res = sub
-					inner := bufferWrites(child, sub, f.Params[pi], depth+1)
-					inner = strings.TrimPrefix(inner, ": ")
-					if inner != "" {
+					_, inner := bufferWriteList(child, sub, f.Params[pi], depth+1)
+					if len(inner) > 0 {
 						sites = append(sites, site{c.Pos(), inner})
 					}
 					return
 				}
 			}
-			sites = append(sites, site{c.Pos(), shortCallee(cc)})
+			sites = append(sites, site{c.Pos(), []bwItem{{Kind: "call", Txt: shortCallee(cc), In: c}}})
 		}
 	}
 	collect = func(b ssa.Value, seen map[ssa.Value]bool) {
@@ -289,11 +318,43 @@ func bufferWrites(t *tb, r *Result, buf ssa.Value, depth int) string {
 	}
 	collect(buf, map[ssa.Value]bool{})
 	sort.SliceStable(sites, func(i, j int) bool { return sites[i].pos < sites[j].pos })
-	var out []string
+	var out []bwItem
 	for _, s := range sites {
-		out = append(out, s.txt)
+		out = append(out, s.items...)
 	}
-	return origin + ": " + strings.Join(out, "; ")
+	return origin, out
+}
+
+// fmtArgList is fmtArgs as a list: element 0 is the quoted format.
+func fmtArgList(t *tb, r *Result, args []ssa.Value, from int, depth int) []string {
+	format, _ := constString(args[from])
+	out := []string{fmt.Sprintf("%q", format)}
+	if from+1 < len(args) {
+		if sl, ok := args[from+1].(*ssa.Slice); ok {
+			if al, ok := sl.X.(*ssa.Alloc); ok {
+				elems := map[int64]string{}
+				for _, ref := range *al.Referrers() {
+					if ia, ok := ref.(*ssa.IndexAddr); ok {
+						k, _ := constInt(ia.Index)
+						for _, rr := range *ia.Referrers() {
+							if st, ok := rr.(*ssa.Store); ok {
+								v := strip(st.Val)
+								if isIntegerType(v.Type()) {
+									elems[k] = t.term(v).String()
+								} else {
+									elems[k] = valTerm(t, r, v, depth+1)
+								}
+							}
+						}
+					}
+				}
+				for k := int64(0); k < int64(len(elems)); k++ {
+					out = append(out, elems[k])
+				}
+			}
+		}
+	}
+	return out
 }
 
 func numTermArgs(t *tb, args []ssa.Value) string {
